@@ -1154,9 +1154,11 @@ func (r *runningStep) deployStage() (deployer.Plugin, bool, error) {
 		r.state = step.RunningStepStateRunning
 		r.lock.Unlock()
 	default: // Default, so it doesn't block on this receive
-		// It's waiting now.
+		// It's waiting now, unless the input has been provided in the meantime.
 		r.lock.Lock()
-		r.state = step.RunningStepStateWaitingForInput
+		if !r.deployInputAvailable {
+			r.state = step.RunningStepStateWaitingForInput
+		}
 		r.lock.Unlock()
 		select {
 		case deployerConfig = <-r.deployInput:
@@ -1268,10 +1270,15 @@ func (r *runningStep) startStage(container deployer.Plugin) (bool, int64, error)
 	if !inputReceivedEarly {
 		// Input is not yet available. Now waiting, unless it has been provided in the meantime.
 		r.lock.Lock()
-		if !r.runInputAvailable {
+		nowWaiting := !r.runInputAvailable
+		if nowWaiting {
 			r.state = step.RunningStepStateWaitingForInput
 		}
 		r.lock.Unlock()
+		if nowWaiting {
+			// Announce the wait, so that the workflow can check if it is stuck.
+			r.stageChangeHandler.OnStageChange(r, nil, nil, nil, string(StageIDStarting), false, &r.wg)
+		}
 
 		// Do a blocking wait for input now.
 		select {
